@@ -258,7 +258,7 @@ def render_method(o, depth, m, with_path, force_parens=False):
     render_pathdecl(o, d, m.get("pathdecl") or [])
     if m["query"]:
         o.line(d, 'Query "q1=1"' if m["query"] == "example" else ("Query noFormat" if m["query"] == "noformat" else "Query"), "Query")
-        o.lines(d, body_lines(QRY))
+        o.lines(d, body_lines(dict(QRY, allOf=["@a"]) if m["query"] == "allof" else QRY))
     if m["req"]["form"] != "none":
         render_spec(o, d, "Request", "", m["req"], m["reqHeaders"], HDR)
     for r in m["resps"]:
